@@ -5,10 +5,24 @@
 //! drives only the surface rendering (newline vs `;`, blanks, comments, line continuations).
 //! Observation: `trace=<marker:$?,…> status=<exit status>` where the trace comes from the `probe`
 //! built-in (prints `$?`, preserves it). Program generation and running: `yverif::prog`.
+//!
+//! Second family, `search …` case lines: the command search (yash-env/src/semantics/command/search.rs)
+//! in random environments; see `yverif::prog::search_family`.
 
-use yverif::prog::{Gen, parse_case, render, run_case, sx_script};
+use yverif::prog::{Gen, parse_case, render, run_case_full, search_family, sx_script};
 use yverif::proto::{Opts, emit, quiet_panics};
 use yverif::rng::Rng;
+
+/// one case of either family
+fn run_one(case: &str) {
+    if case.starts_with("search ") {
+        let obs = yverif::proto::guarded(|| search_family::run(case));
+        let oracle = if obs.starts_with("cl=") { search_family::oracle(&obs) } else { "-".into() };
+        emit(case, &obs, &oracle);
+    } else {
+        emit(case, &run_case_full(case), "-");
+    }
+}
 
 fn main() {
     quiet_panics();
@@ -25,10 +39,20 @@ fn main() {
     }
     let (fixed, only) = o.fixed_cases();
     for c in &fixed {
-        emit(c, &run_case(c), "-");
+        run_one(c);
     }
     if only {
         return;
+    }
+    // the command-search family: the search functions called directly and through a whole shell run
+    let ns = if o.thorough() { 60_000 } else { 3_000 };
+    let mut srng = Rng::new(o.seed ^ 0x5EA2C4);
+    for k in 0..ns {
+        let case = search_family::generate(&mut srng);
+        if k % o.shard.1 != o.shard.0 {
+            continue;
+        }
+        run_one(&case);
     }
     let n = if o.thorough() { 200_000 } else { 10_000 };
     let mut rng = Rng::new(o.seed ^ 0xC02);
@@ -52,6 +76,6 @@ fn main() {
         let lines = g.script();
         let surface = g.rng.next() % 1000;
         let case = format!("{} {}", surface, sx_script(&lines));
-        emit(&case, &run_case(&case), "-");
+        emit(&case, &run_case_full(&case), "-");
     }
 }
